@@ -107,6 +107,17 @@ func vfWithoutMarkers(calls []vfCall) []vfCall {
 
 var vfStackBuf = make([]byte, 1<<20)
 
+// vfRebumpAfter: how long the barrier waits for a report before it bumps the sentinels again. Progress
+// only, never a verdict; VERIF_C20_REBUMP_MS shortens it to stress the "earlier bump still in flight" paths.
+func vfRebumpAfter() time.Duration {
+	if v := os.Getenv("VERIF_C20_REBUMP_MS"); v != "" {
+		ms := 0
+		fmt.Sscanf(v, "%d", &ms)
+		return time.Duration(ms) * time.Millisecond
+	}
+	return 2 * time.Second
+}
+
 // vfProbeSeen: the goroutine-dump probe has worked at least once in this process
 var vfProbeSeen bool
 
@@ -601,7 +612,7 @@ func TestVerifC20EndToEnd(t *testing.T) {
 				cfg[vfSentinelCtl] = vfRender(vfSentinelCtl, vfObj{"VfCtlA", b})
 				cfg[vfSentinelGate] = vfRender(vfSentinelGate, vfObj{"VfGateA", b})
 				send(cfg)
-				slice := time.After(2 * time.Second)
+				slice := time.After(vfRebumpAfter())
 			wait:
 				for {
 					select {
@@ -1278,6 +1289,7 @@ func TestVerifC20EndToEnd(t *testing.T) {
 				led.mu.Lock()
 				callsBefore := len(led.calls)
 				led.mu.Unlock()
+				stepStartNo := barrierNo // every sentinel payload up to this number was sent before this step
 				send(map[string]string{})
 				prevB := fmt.Sprintf("b%d", barrierNo)
 				send(map[string]string{
@@ -1296,6 +1308,15 @@ func TestVerifC20EndToEnd(t *testing.T) {
 						consumer = vfSentinelCtl
 					}
 					if c.Op == "marker" {
+						// a bump of an earlier barrier may still be in flight when this step starts (the barrier
+						// re-bumps when a report is late and returns on the first report): an Inherit with a payload
+						// that was sent before this step, arriving before the Close, belongs to that earlier bump
+						no := -1
+						fmt.Sscanf(strings.TrimPrefix(c.Payload, "b"), "%d", &no)
+						if c.Kind == "inherit" && no >= 0 && no <= stepStartNo && len(sentinelOps[c.Owner]) == 0 {
+							vf.Class("earlier-barrier-bump-arrived-inside-the-empty-snapshot-step")
+							continue
+						}
 						sentinelOps[c.Owner] = append(sentinelOps[c.Owner], c.Kind)
 						continue
 					}
